@@ -77,6 +77,23 @@ package generator
 //@ ensures schema.Format != binary && !vs_overridden(schema.Extensions) && isRequired && !schema.ReadOnly ==> result
 //@ ensures schema.Format != binary && !vs_overridden(schema.Extensions) && schema.ReadOnly ==> !result
 
+//@ func guardValidations
+//@ props C02
+//@ requires schema != nil
+//@ ensures vs_called("Validations") && vs_called("SetValidations")
+//@ ensures tpe == number || tpe == integer ==> vs_sameNumberValidations(vs_callResult[spec.SchemaValidations]("Validations", 0), vs_callArg[spec.SchemaValidations]("SetValidations", 1))
+//@ ensures tpe == str ==> vs_sameStringValidations(vs_callResult[spec.SchemaValidations]("Validations", 0), vs_callArg[spec.SchemaValidations]("SetValidations", 1))
+//@ ensures tpe == array ==> vs_sameArrayValidations(vs_callResult[spec.SchemaValidations]("Validations", 0), vs_callArg[spec.SchemaValidations]("SetValidations", 1))
+//@ ensures tpe == object ==> vs_sameObjectValidations(vs_callResult[spec.SchemaValidations]("Validations", 0), vs_callArg[spec.SchemaValidations]("SetValidations", 1))
+//@ ensures tpe != file ==> vs_sameEnum(vs_callResult[spec.SchemaValidations]("Validations", 0), vs_callArg[spec.SchemaValidations]("SetValidations", 1))
+//@ ensures tpe == file ==> vs_callArg[spec.SchemaValidations]("SetValidations", 1).MaxLength == vs_callResult[spec.SchemaValidations]("Validations", 0).MaxLength && vs_callArg[spec.SchemaValidations]("SetValidations", 1).MinLength == vs_callResult[spec.SchemaValidations]("Validations", 0).MinLength
+
+//@ func guardFormatConflicts
+//@ props C02
+//@ requires schema != nil
+//@ ensures format != "binary" ==> !vs_called("SetValidations")
+//@ ensures format == "binary" ==> vs_called("SetValidations") && vs_sameNumberValidations(vs_callResult[spec.SchemaValidations]("Validations", 0), vs_callArg[spec.SchemaValidations]("SetValidations", 1)) && vs_sameArrayValidations(vs_callResult[spec.SchemaValidations]("Validations", 0), vs_callArg[spec.SchemaValidations]("SetValidations", 1)) && vs_sameObjectValidations(vs_callResult[spec.SchemaValidations]("Validations", 0), vs_callArg[spec.SchemaValidations]("SetValidations", 1))
+
 //@ func (*LanguageOpts).Init
 //@ props C01
 //@ safety
